@@ -36,10 +36,15 @@ _EXPR_CACHE = {}     # sympy expr -> (string, verdict) : memo of a pure function
 _PARSE_CACHE = {}    # (reading, string) -> (expr or None, values or None, info) : pure function of the string
 
 
-def _print(expr):
+_SHARED = []         # one long-lived printer per worker, reused over the whole stream of terms (as the simplifier reuses its printer)
+
+
+def _print(expr, shared=False):
     from esr.generation.custom_printer import ESRPrinter
+    if shared and not _SHARED:
+        _SHARED.append(ESRPrinter())
     with contextlib.redirect_stdout(io.StringIO()):        # the printer has stray print() calls on one path
-        return ESRPrinter().doprint(expr)
+        return (_SHARED[0] if shared else ESRPrinter()).doprint(expr)
 
 
 def _reading(which, s):
@@ -96,7 +101,7 @@ def evaluate(term):
     rec = {"status": "ok", "expr": str(e1)}
     try:
         s1 = _print(e1)
-        s2 = _print(exprbuild.build(term))          # built again, fresh printer
+        s2 = _print(exprbuild.build(term), shared=True)     # built again (then freed), printed by the long-lived printer
     except Exception as ex:
         rec.update(status="print_crash", info="ESRPrinter().doprint(%s) raised %r" % (e1, ex))
         return rec
